@@ -1,6 +1,6 @@
 #!/bin/bash
 # usage: tools/try_seed.sh <dir with patch.diff> <prop> [more props]  — applies the seeded change to /repo, runs the checks, restores /repo
-d=$1; shift
+d=$(realpath $1); shift
 cd /repo || exit 2
 git diff --quiet || { echo "/repo not clean"; exit 2; }
 git apply --check "$d/patch.diff" || { echo "patch does not apply"; exit 3; }
